@@ -51,31 +51,6 @@ def copyUpIfBase (c : Cow) (name : Str) : Cow × Option FsErr :=
     ({ c with s := { c.s with l := l' } }, e)
   else (c, none)
 
-def openFile (c : Cow) (name : Str) (flag perm : Nat) : Cow × MRes :=
-  let k := keyOfStr name
-  let b := c.isBaseFile k
-  if flag &&& cowWriteMask ≠ 0 then
-    if b then
-      match c.copyUpIfBase name with
-      | (c, some e) => (c, .err e)
-      | (c, none) => c.layerOpenFile k flag perm
-    else
-      let dk := keyOfStr (Path.dir name)
-      let (isaDir, _) := fsIsDir c.s.b dk            -- a not-exist error is tolerated here
-      if isaDir then
-        let (l', r) := c.s.l.mkdirAll dk 0o777
-        let c := { c with s := { c.s with l := l' } }
-        match r with
-        | .ok => c.layerOpenFile k flag perm
-        | other => (c, other)
-      else
-        match fsIsDir c.s.l dk with
-        | (_, some e) => (c, .err e)
-        | (true, none) => c.layerOpenFile k flag perm
-        | (false, none) => (c, .err .notdir)
-  else if b then c.baseOpenFile k flag perm
-  else c.layerOpenFile k flag perm
-
 def open_ (c : Cow) (name : Str) : Cow × MRes :=
   let k := keyOfStr name
   let rb := c.s.b.openRO k
@@ -102,6 +77,33 @@ def open_ (c : Cow) (name : Str) : Cow × MRes :=
         match rl.2 with
         | .handle i e => ((c.addH (.layer i)).1, .handle (c.addH (.layer i)).2 e)
         | other => (c, other)
+
+def openFile (c : Cow) (name : Str) (flag perm : Nat) : Cow × MRes :=
+  let k := keyOfStr name
+  let b := c.isBaseFile k
+  if flag &&& cowWriteMask ≠ 0 then
+    if b then
+      match c.copyUpIfBase name with
+      | (c, some e) => (c, .err e)
+      | (c, none) => c.layerOpenFile k flag perm
+    else
+      let dk := keyOfStr (Path.dir name)
+      let (isaDir, _) := fsIsDir c.s.b dk            -- a not-exist error is tolerated here
+      if isaDir then
+        let (l', r) := c.s.l.mkdirAll dk 0o777
+        let c := { c with s := { c.s with l := l' } }
+        match r with
+        | .ok => c.layerOpenFile k flag perm
+        | other => (c, other)
+      else
+        match fsIsDir c.s.l dk with
+        | (_, some e) => (c, .err e)
+        | (true, none) => c.layerOpenFile k flag perm
+        | (false, none) => (c, .err .notdir)
+  else if b then c.baseOpenFile k flag perm
+  -- (as repaired) a directory of the overlay is opened as Open does: the union of both layers
+  else if (fsIsDir c.s.l k).1 ∧ (fsIsDir c.s.l k).2.isNone then c.open_ name
+  else c.layerOpenFile k flag perm
 
 /-- forward an op (re-indexed to the underlying handle) to one layer -/
 def reindex : Op → Nat → Op
